@@ -9,6 +9,7 @@
 #include "QXmppIq.h"
 #include "QXmppNonSASLAuth.h"
 #include "QXmppRosterIq.h"
+#include "QXmppStanza.h"
 #include "QXmppUtils.h"
 #include "QXmppVersionIq.h"
 
@@ -17,6 +18,24 @@
 #include <QXmlStreamWriter>
 #include <cstdio>
 #include <cstring>
+#include <cstdlib>
+#include <new>
+
+// every heap block starts filled with 0xAB, so a member without initialiser shows as garbage deterministically (scenario error-maxfilesize)
+static bool g_poison = false;
+void *operator new(std::size_t n)
+{
+    void *p = std::malloc(n ? n : 1);
+    if (!p) {
+        throw std::bad_alloc();
+    }
+    if (g_poison) {
+        memset(p, 0xAB, n);
+    }
+    return p;
+}
+void operator delete(void *p) noexcept { std::free(p); }
+void operator delete(void *p, std::size_t) noexcept { std::free(p); }
 
 template<typename T>
 static QByteArray ser(const T &x)
@@ -146,6 +165,32 @@ int main(int argc, char **argv)
             y.isApproved() == x.isApproved() && y.groups() == x.groups() && y.isMixChannel() == x.isMixChannel() && y.mixParticipantId() == x.mixParticipantId();
         printf("xml: %s\n%s roster item (incl. the MIX channel child whose namespace is written as an xmlns attribute) %s the round trip\n", xml.constData(), same ? "NOT-REPRODUCED" : "REPRODUCED", same ? "survives" : "does not survive");
         return same ? 0 : 1;
+    }
+    if (!strcmp(sc, "stanzaerror-fixpoint")) {
+        int bad = 0;
+        for (const char *in : { "<error type='cancel' code='-5'><bad-request xmlns='urn:ietf:params:xml:ns:xmpp-stanzas'/></error>",
+                                "<error type='cancel'><gone xmlns='urn:ietf:params:xml:ns:xmpp-stanzas'>xmpp:new@example.org</gone><bad-request xmlns='urn:ietf:params:xml:ns:xmpp-stanzas'/></error>",
+                                "<error type='wait'><resource-constraint xmlns='urn:ietf:params:xml:ns:xmpp-stanzas'/><file-too-large xmlns='urn:xmpp:http:upload:0'><max-file-size>5</max-file-size></file-too-large><retry xmlns='urn:xmpp:http:upload:0' stamp='2024-01-02T03:04:05Z'/></error>" }) {
+            QXmppStanza::Error a, b;
+            reparse(QByteArray(in), a);
+            QByteArray out = ser(a);
+            reparse(out, b);
+            bool same = a.code() == b.code() && a.redirectionUri() == b.redirectionUri() && a.retryDate() == b.retryDate();
+            printf("in:  %s\nout: %s\ncode %d -> %d, redirection '%s' -> '%s', retry date valid %d -> %d\n", in, out.constData(), a.code(), b.code(), qPrintable(a.redirectionUri()),
+                   qPrintable(b.redirectionUri()), a.retryDate().isValid(), b.retryDate().isValid());
+            bad += !same;
+        }
+        printf("%s QXmppStanza::Error: %d of 3 inputs are not a parse/serialise fixpoint\n", bad ? "REPRODUCED" : "NOT-REPRODUCED", bad);
+        return bad ? 1 : 0;
+    }
+    if (!strcmp(sc, "error-maxfilesize")) {
+        g_poison = true;
+        QXmppStanza::Error e;
+        qint64 v = e.maxFileSize();
+        g_poison = false;
+        printf("default-constructed QXmppStanza::Error on a poisoned heap: fileTooLarge() = %d, maxFileSize() = %lld (0x%llx)\n", e.fileTooLarge(), (long long)v, (unsigned long long)v);
+        printf("%s maxFileSize() of a default-constructed error is indeterminate (QXmppStanzaErrorPrivate::maxFileSize has no initialiser)\n", v != 0 ? "REPRODUCED" : "NOT-REPRODUCED");
+        return v != 0 ? 1 : 0;
     }
     fprintf(stderr, "unknown scenario\n");
     return 2;
